@@ -492,6 +492,8 @@ type c08Scenario struct {
 	// pint ci scenario: BaseRules is committed on main, Rules on the feature branch (rule/dependency only runs on removed rules)
 	CI        bool   `json:"ci,omitempty"`
 	BaseRules string `json:"base_rules,omitempty"`
+	// Added: the feature branch leaves rules/0.yml (BaseRules) UNTOUCHED and adds this as rules/1.yml
+	Added string `json:"added_file,omitempty"`
 }
 
 type c08Variant struct {
@@ -542,6 +544,13 @@ func c08Binary(r *rand.Rand, rep *runReport, cwd string, n int) {
 	scens = append(scens, c08Scenario{CI: true, Config: c08Prom("prom", nil) + c08AllKinds,
 		BaseRules: "groups:\n- name: g\n  rules:\n  - record: dep:rec\n    expr: sum(foo) without(instance)\n  - alert: UsesDep\n    expr: dep:rec > 0\n    for: 1m\n",
 		Rules:     "groups:\n- name: g\n  rules:\n  - alert: UsesDep\n    expr: dep:rec > 0\n    for: 1m\n"})
+	// pint ci with entries the branch does not touch: the rule block runs its checks on every state (match{state=["any"]}),
+	// the branch only adds a second file; rule{disable/enable} blocks without a state must reach the untouched rules too
+	scens = append(scens, c08Scenario{CI: true,
+		Config:    c08Prom("prom", nil) + strings.Replace(c08AllKinds, "rule {\n", "rule {\n  match {\n    state = [\"any\"]\n  }\n", 1),
+		BaseRules: allRules,
+		Added:     "groups:\n- name: g2\n  rules:\n" + c08RulePool[1] + c08RulePool[3],
+		Names:     []string{"rule/label", "alerts/annotation", "rule/for", "rule/name", "rule/report", "rule/reject", "promql/aggregate", "promql/range_query"}})
 	type job struct {
 		scen int
 		v    c08Variant
@@ -560,10 +569,16 @@ func c08Binary(r *rand.Rand, rep *runReport, cwd string, n int) {
 			git(dir, "add", ".")
 			git(dir, "commit", "-q", "-m", "init")
 			git(dir, "checkout", "-q", "-b", "feature")
-			writeFile(filepath.Join(dir, "rules", "0.yml"), scens[si].Rules)
+			if scens[si].Added != "" {
+				writeFile(filepath.Join(dir, "rules", "1.yml"), scens[si].Added)
+			} else {
+				writeFile(filepath.Join(dir, "rules", "0.yml"), scens[si].Rules)
+			}
 			git(dir, "add", ".")
-			git(dir, "commit", "-q", "-m", "remove the recording rule")
-			names = []string{"rule/dependency", "alerts/template", "promql/series", "rule/label"}
+			git(dir, "commit", "-q", "-m", "feature branch")
+			if scens[si].Names == nil {
+				names = []string{"rule/dependency", "alerts/template", "promql/series", "rule/label"}
+			}
 		} else {
 			writeFile(filepath.Join(dir, "rules", "0.yml"), scens[si].Rules)
 		}
@@ -583,6 +598,16 @@ func c08Binary(r *rand.Rand, rep *runReport, cwd string, n int) {
 				c08Variant{Kind: "rule-enable-over-disabled", Name: nme, Extra: fmt.Sprintf("checks {\n  disabled = [%q]\n}\nrule {\n  enable = [%q]\n}\n", nme, nme)},
 				c08Variant{Kind: "rule-disable-over-enable", Name: nme, Extra: fmt.Sprintf("rule {\n  enable = [%q]\n}\nrule {\n  disable = [%q]\n}\n", nme, nme)},
 			)
+		}
+		if scens[si].Added != "" {
+			for _, nme := range names {
+				vs = append(vs,
+					c08Variant{Kind: "rule-disable-state-any", Name: nme, Extra: fmt.Sprintf("rule {\n  match {\n    state = [\"any\"]\n  }\n  disable = [%q]\n}\n", nme)},
+					c08Variant{Kind: "rule-disable-state-unmodified", Name: nme, Extra: fmt.Sprintf("rule {\n  match {\n    state = [\"unmodified\"]\n  }\n  disable = [%q]\n}\n", nme)},
+					c08Variant{Kind: "rule-disable-state-added", Name: nme, Extra: fmt.Sprintf("rule {\n  match {\n    state = [\"added\"]\n  }\n  disable = [%q]\n}\n", nme)},
+					c08Variant{Kind: "rule-disable-ignore-state-added", Name: nme, Extra: fmt.Sprintf("rule {\n  ignore {\n    state = [\"added\"]\n  }\n  disable = [%q]\n}\n", nme)},
+				)
+			}
 		}
 		// command line x configuration file: every CLI switch crossed with every counterpart of the file, documented precedence:
 		// --enabled REPLACES checks{enabled}; --disabled ADDS to checks{disabled}; a disabled name wins over an enabled one
@@ -665,6 +690,12 @@ func c08Binary(r *rand.Rand, rep *runReport, cwd string, n int) {
 			switch j.v.Kind {
 			case "flag-disabled", "cfg-disabled", "rule-disable", "rule-disable-over-enable":
 				keep = p.Reporter != j.v.Name
+			case "rule-disable-state-any":
+				keep = p.Reporter != j.v.Name
+			case "rule-disable-state-unmodified", "rule-disable-ignore-state-added":
+				keep = !(p.Reporter == j.v.Name && p.Path == "rules/0.yml") // the untouched file
+			case "rule-disable-state-added":
+				keep = !(p.Reporter == j.v.Name && p.Path == "rules/1.yml") // the file the branch adds
 			case "rule-enable-over-disabled", "flag-disabled-tag-form":
 				keep = true
 			case "flag-enabled", "cfg-enabled", "cli-enabled-over-cfg-enabled-outside", "cli-enabled-over-cfg-enabled-inside", "cli-enabled-with-cfg-disabled-other":
